@@ -33,11 +33,13 @@ def get_text_content(text_node: Node) -> str:
     paras = []
     text_node.find_all_descendants(names.PARA, paras)
     for para in paras:
-        content += '\n' + para.content
+        if para.content:
+            content += '\n' + para.content
     markdowns = []
     text_node.find_all_descendants(names.MARKDOWN, markdowns)
     for markdown in markdowns:
-        content += '\n' + markdown.content
+        if markdown.content:
+            content += '\n' + markdown.content
     return content
 
 
@@ -243,7 +245,7 @@ def _description_rule(node: Node) -> list:
     warning = None
     content = get_text_content(node)
     if not content:
-        parent = node.parent.name
+        parent = node.parent.name if node.parent is not None else None
         if parent == 'connectionDefinition':
             warning = EvaluationWarning.CONNECTION_DEFINITION_DESCRIPTION_MISSING
         elif parent == 'designDescription':
